@@ -253,7 +253,56 @@ def us_cases(ctx, n_cases):
             ctx.disagree("SkaModel.Core.Uncertainty vs UncertaintySampling (scores, scatter, utility_weight)", dict(case, line=line[:300]), out[:400], impl[:400])
 
 
+def weighted_duplicates(ctx, n_cases):
+    """Restriction with per-sample training weights on duplicated points (seed R10G05): two candidates with identical features
+    but different `sample_weight`; the utility of the second copy must be the same whether all unlabeled samples or only that
+    copy are candidates (expected-model-change strategies are sample-wise: every candidate is scored with its own row of
+    (X, y, sample_weight))."""
+    import skactiveml.pool as P
+    from skactiveml.regressor import NICKernelRegressor
+
+    rng = ctx.rng
+    mk = {
+        "ExpectedModelOutputChange": lambda s: P.ExpectedModelOutputChange(random_state=s, integration_dict={"method": "assume_linear"}),
+        "ExpectedModelVarianceReduction": lambda s: P.ExpectedModelVarianceReduction(random_state=s, integration_dict={"method": "assume_linear"}),
+        "KLDivergenceMaximization": lambda s: P.KLDivergenceMaximization(random_state=s, integration_dict_target_val={"method": "assume_linear"},
+                                                                          integration_dict_cross_entropy={"method": "assume_linear"}),
+    }
+    for _ in range(n_cases):
+        name = rng.choice(sorted(mk))
+        nrs = np.random.RandomState(rng.randrange(2**31 - 1))
+        n = rng.randint(7, 11)
+        X = nrs.randint(-6, 7, size=(n, 2)) / 2.0
+        y = np.full(n, np.nan)
+        lab = rng.sample(range(n), 3)
+        for i in lab:
+            y[i] = float(nrs.randint(-4, 5)) / 2.0
+        unl = [i for i in range(n) if i not in lab]
+        a, b = unl[0], unl[-1]
+        X[b] = X[a]                                  # an exact copy ...
+        w = np.array([rng.choice([0.5, 1.0, 2.0]) for _ in range(n)])
+        w[a], w[b] = 0.5, 4.0                        # ... with another training weight
+        seed = rng.randrange(10**6)
+        case = dict(fn="weighted-duplicates", strategy=name, X=X.tolist(), y=["nan" if v != v else v for v in y], sample_weight=w.tolist(), copy=(a, b), seed=seed)
+        try:
+            with warnings.catch_warnings(), np.errstate(all="ignore"):
+                warnings.simplefilter("ignore")
+                reg = lambda: NICKernelRegressor(metric_dict={"gamma": 0.25}, random_state=0)   # noqa: E731
+                _, Uf = mk[name](seed).query(X, y, reg=reg(), sample_weight=w, candidates=None, batch_size=1, return_utilities=True)
+                _, Us = mk[name](seed).query(X, y, reg=reg(), sample_weight=w, candidates=np.array([b]), batch_size=1, return_utilities=True)
+        except Exception as e:  # noqa: BLE001
+            ctx.count("weighted_duplicates_raised:" + type(e).__name__)
+            continue
+        ctx.case(("wdup", name, seed, repr(X.tolist())), True, sample=dict(kind="weighted duplicates", strategy=name, full=float(Uf[0][b]), single=float(Us[0][b])))
+        ctx.count("weighted_duplicates_" + name)
+        if not close(np.array([Uf[0][b]]), np.array([Us[0][b]])):
+            ctx.violate(f"C08/{name}.query/restriction/utilities-differ/weighted-duplicates",
+                        f"{name}: sample {b} (an exact copy of sample {a} with another sample_weight) has utility {float(Uf[0][b])!r} among all candidates "
+                        f"but {float(Us[0][b])!r} as the only candidate", case)
+
+
 def correspond(ctx):
+    weighted_duplicates(ctx, 24 if not ctx.thorough else 200)
     us_cases(ctx, 150 if not ctx.thorough else 1500)
     candmap_cases(ctx, 400 if not ctx.thorough else 4000)
     relations(ctx, 2 if not ctx.thorough else 12)
@@ -265,6 +314,24 @@ def search(ctx):
 
 def replay(payload):
     r = payload["replay"]
+    if r.get("fn") == "weighted-duplicates":
+        import skactiveml.pool as P
+        from skactiveml.regressor import NICKernelRegressor
+
+        X = np.array(r["X"], dtype=float)
+        y = np.array([float("nan") if v == "nan" else v for v in r["y"]], dtype=float)
+        w = np.array(r["sample_weight"], dtype=float)
+        b = r["copy"][1]
+        kw = dict(integration_dict={"method": "assume_linear"}) if r["strategy"] != "KLDivergenceMaximization" else dict(
+            integration_dict_target_val={"method": "assume_linear"}, integration_dict_cross_entropy={"method": "assume_linear"})
+        mk = lambda: getattr(P, r["strategy"])(random_state=r["seed"], **kw)   # noqa: E731
+        reg = lambda: NICKernelRegressor(metric_dict={"gamma": 0.25}, random_state=0)   # noqa: E731
+        _, Uf = mk().query(X, y, reg=reg(), sample_weight=w, candidates=None, batch_size=1, return_utilities=True)
+        _, Us = mk().query(X, y, reg=reg(), sample_weight=w, candidates=np.array([b]), batch_size=1, return_utilities=True)
+        print("utility among all candidates:", float(Uf[0][b]), "| as the only candidate:", float(Us[0][b]))
+        bad = not close(np.array([Uf[0][b]]), np.array([Us[0][b]]))
+        print("REPRODUCED" if bad else "not reproduced")
+        return 1 if bad else 0
     print("recorded case:", {k: v for k, v in r.items() if k not in ("X", "y", "y_true")})
     spec = [s for s in pool_specs() if s.name == r["spec"]][0]
 
